@@ -3,6 +3,7 @@ pub mod fmt;
 pub mod rat;
 pub mod run;
 pub mod syntax;
+pub mod table;
 
 use std::sync::Arc;
 
